@@ -132,6 +132,8 @@ pub enum Step {
     Restart,
     Reorg(RTarget),
     Bad(BadSpec),
+    /// driver only: parameters of the next block (timestamp; zero hash = server-generated)
+    Params { ts: u64, zero_hash: bool },
     /// a read request (never changes the automaton); `boundary_only`: skipped while a block is open
     /// (simulations wait up to 5 s for the block to be finalised)
     Read { method: String, params: Value, boundary_only: bool },
@@ -539,6 +541,14 @@ impl World {
                     self.desync = true;
                 }
                 StepOut { step: step.clone(), call, outcome: out, expect, growth: false }
+            }
+            Step::Params { ts, zero_hash } => {
+                if self.open.is_none() {
+                    self.next_ts = Some(*ts);
+                    self.next_hash = if *zero_hash { Some(zero32()) } else { None };
+                }
+                let call = Call { method: "<skip>".into(), params: json!([]) };
+                StepOut { step: step.clone(), call, outcome: CallOutcome::Resp(json!({"result": null})), expect: Expect::Any, growth: false }
             }
             Step::Read { method, params, boundary_only } => {
                 if *boundary_only && self.count() != 0 {
